@@ -23,8 +23,8 @@ its interval.  Every soundness theorem has the form "the exact result point is i
 since membership requires *not marked empty*, each of them also says that the result is marked
 empty only if the exact result is empty.
 
-Two clauses are FALSE of the code as it is (genuine defects found by this stage, both confirmed on
-the real library, open findings KF-C03-64…72):
+One clause is FALSE of the code as it is (genuine defect found by this stage, confirmed on the real
+library, open findings KF-C03-65…72), a second one was until /repo dee742e (KF-C03-64, fixed):
 
 * `propagate_constraint_no_check` rounds the *coefficients* into the temporary type in the
   direction meant for the bound: with a coefficient that the temporaries cannot represent
@@ -34,8 +34,9 @@ the real library, open findings KF-C03-64…72):
   the transformers that refine internally (`bounded_affine_image`, the non-invertible
   `generalized_affine_preimage`, the `(lhs, relsym, rhs)` forms) take `RefineSound cfg`
   (`box_refine_sound_of_int_exact`), with a `_fails` witness each;
-* `propagate_constraint` on the tautology `0 == 0` marks the box empty
-  (`box_propagate_trivial_eq_fails`).
+* before dee742e `propagate_constraint` on the tautology `0 == 0` marked the box empty
+  (`box_propagate_trivial_eq_before_fix_fails`, about `propagateConstraintNoCheckBeforeFix`); the model
+  follows the repaired test and the propagate theorems no longer exclude the tautology.
 -/
 set_option linter.unusedVariables false
 namespace C03
@@ -92,31 +93,44 @@ theorem box_refine_constraints_sound_partial (cfg : Cfg) (hS : cfg.Sound) (b : B
   refineWithConstraints_sound hS hwf hex hx hc
 
 /-- `propagate_constraints(cs, max_iterations)`: for EVERY number of iterations (every `fuel`, every
-`max_iterations`), all four sign blocks, every rounding of the temporaries.  `_partial`: `CoeffsExact`
-(see above) and no constraint is the tautology `0 == 0` (`box_propagate_trivial_eq_fails`). -/
+`max_iterations`), all four sign blocks, every rounding of the temporaries, trivial constraints included.
+`_partial` for ONE reason only: `CoeffsExact` — the coefficients must be values of the temporary type,
+exactly the class where `box_refine_sound_fails` shows the clause false (KF-C03-65…68); always true for
+`mpq_class` / `mpz_class` temporaries (`box_propagate_sound_exact_temporaries`). -/
 theorem box_propagate_sound_partial (cfg : Cfg) (hS : cfg.Sound) (fuel maxIter : Nat) (b : Box) (cs : List Con)
     (x : Nat → Rat) (hwf : ∀ c ∈ cs, c.e.WF b.dim) (hex : ∀ c ∈ cs, CoeffsExact cfg.TR c.e)
-    (hnt : ∀ c ∈ cs, ¬ (c.e.terms = [] ∧ c.ty = .eq ∧ c.e.inhom = 0))
     (hx : b.mem cfg.p x) (hc : ∀ c ∈ cs, c.holds x) : (propagateConstraints cfg fuel b cs maxIter).mem cfg.p x :=
-  propagateConstraints_sound hS fuel maxIter hwf hex hnt hx hc
+  propagateConstraints_sound hS fuel maxIter hwf hex hx hc
 
-/-- `propagate_constraint(c)` -/
+/-- `propagate_constraint(c)`; `_partial` for `CoeffsExact` only -/
 theorem box_propagate_constraint_sound_partial (cfg : Cfg) (hS : cfg.Sound) (b : Box) (c : Con) (x : Nat → Rat)
     (hwf : c.e.WF b.dim) (hex : CoeffsExact cfg.TR c.e)
-    (hnt : ¬ (c.e.terms = [] ∧ c.ty = .eq ∧ c.e.inhom = 0))
     (hx : b.mem cfg.p x) (hc : c.holds x) : (propagateConstraint cfg b c).mem cfg.p x :=
-  propagateConstraint_sound hS hwf hex hnt hx hc
+  propagateConstraint_sound hS hwf hex hx hc
+
+/-- full strength for instantiations whose temporaries hold every integer (`Rational_Box`, `Z_Box`) -/
+theorem box_propagate_sound_exact_temporaries (cfg : Cfg) (hS : cfg.Sound) (hT : IntExact cfg.TR) (fuel maxIter : Nat)
+    (b : Box) (cs : List Con) (x : Nat → Rat) (hwf : ∀ c ∈ cs, c.e.WF b.dim)
+    (hx : b.mem cfg.p x) (hc : ∀ c ∈ cs, c.holds x) : (propagateConstraints cfg fuel b cs maxIter).mem cfg.p x :=
+  propagateConstraints_sound hS fuel maxIter hwf (fun c _ => hT.coeffsExact c.e) hx hc
 
 example : CoeffsExact Cfg.dbl.TR (⟨[3, -2, 1], 7⟩ : LinExpr) := by
   intro a ha
   simp only [List.mem_cons, List.not_mem_nil, or_false] at ha
   rcases ha with rfl | rfl | rfl <;> constructor <;> decide +kernel
 
-/-- the tautology `0 == 0` marks the box empty (every instantiation; KF-C03-64) -/
-theorem box_propagate_trivial_eq_fails :
+/-- the tautology `0 == 0` is now kept, the inconsistent `5 == 0` empties the box (the repaired test) -/
+example (b : Box) : propagateConstraintNoCheck Cfg.mpq b ⟨⟨[], 0⟩, .eq⟩ = b ∧
+    propagateConstraintNoCheck Cfg.mpq b ⟨⟨[], 5⟩, .eq⟩ = b.setEmpty :=
+  ⟨(propagateConstraintNoCheck_trivialEq Cfg.mpq b).1, (propagateConstraintNoCheck_trivialEq Cfg.mpq b).2.1⟩
+
+/-- HISTORICAL (KF-C03-64, repaired by /repo dee742e): the function as written before the repair marked the
+box empty on the tautology `0 == 0` (every instantiation); it differs from the current one on trivial
+constraints only (`propagateConstraintNoCheckBeforeFix_eq`) -/
+theorem box_propagate_trivial_eq_before_fix_fails :
     ¬ (∀ (b : Box) (c : Con) (x : Nat → Rat), c.e.WF b.dim → CoeffsExact Cfg.mpq.TR c.e → b.mem Cfg.mpq.p x →
-      c.holds x → (propagateConstraintNoCheck Cfg.mpq b c).mem Cfg.mpq.p x) :=
-  propagateConstraintNoCheck_trivial_eq_fails
+      c.holds x → (propagateConstraintNoCheckBeforeFix Cfg.mpq b c).mem Cfg.mpq.p x) :=
+  propagateConstraintNoCheck_trivial_eq_before_fix_fails
 
 /-- exactness where the C++ documents it: a single-variable constraint on a box with exact bounds is
 the intersection with the half-space (open bounds included when the policy stores them) -/
